@@ -2,8 +2,8 @@
 # undecided on the current tree: exhaustive enumeration of all explicit id lists up to length 6 over 3 categories (one a prefix of another)
 # against the contract: each category gets exactly its ids in input order; the order of the categories is a function of the set of ids (the same ids
 # listed in reverse give the same category order).  exit 0 clean, 1 violated (prints the input).
-import itertools, json, sys
-sys.path.insert(0, '/repo') if '/repo' not in sys.path else None
+import itertools, json, os, sys
+sys.path.insert(0, os.getcwd())          # the tree under check (the checker runs the battery with the tree as working directory)
 from playback.studio.studio import PlaybackStudio
 from playback.tape_cassettes.in_memory.in_memory_tape_cassette import InMemoryTapeCassette
 
